@@ -404,6 +404,10 @@ func conv(fr *frame, tDst, tSrc types.Type, x value) value {
 			ek := basicKind(us.Elem())
 			var ps []spiece
 			for _, e := range x.([]value) {
+				if jb, ok := e.(jsonBlob); ok {
+					ps = append(ps, blobPiece(jb))
+					continue
+				}
 				if s, ok := e.(sym); ok {
 					if ek == types.Uint8 {
 						ps = append(ps, spiece{k: pkByte, t: s.t})
